@@ -6,5 +6,18 @@ claim("C03", WIRE,
       "Trusts go/types, the io primitive widths (proved in C01) and the codec pairs consumed at call sites (each is its own obligation). Lossy numeric conversions, gzip and byte-identity of re-encoding are not decided.",
       "DESIGN.md §3 C03")
 
-for pid in ["C01","C02","C04","C05","C06","C07","C08","C09","C10","C11","C12","C13","C14","C15","C16","C17","C18","C19","C20"]:
+claim("C02", WIRE,
+      "Decides that CreateValue's tag table and every type's GetValueType() agree (unknown tag panics), that Write~Read of all 20 value types agree on the layout on every joint path (containers = count-prefixed repetitions of tagged values, closed co-inductively through WriteValue~ReadValue), that field labels and counts correspond, and that map/list containers are rebuilt in written order. Necessary conditions of the round trip, for every shape; content equality is not executed.",
+      "Trusts go/types; primitive byte layouts are C01's obligations; behaviour of the backing linked maps is C09's.",
+      "DESIGN.md §3 C02")
+claim("C07", WIRE + "; interval splitting of the version variable at every gate constant; field-coverage of Clear(); must-pass masking rule",
+      "Decides writer/reader layout and field agreement of all UDP pack types for EVERY protocol version (the version interval is split at each gate constant on either side, so all guard truth assignments are enumerated), the CreatePack/ClosePack/GetPackType/pool table, that Clear() resets every field of every pooled type, that Process() masks the password key for both separators on the Go and PHP branches on every path with a non-empty connection string, and that text-carried integers use matching format/parse helpers.",
+      "Trusts go/types and sync.Pool; what ParamKV does to a given string is not analysed (only that both masking passes are applied and their result stored).",
+      "DESIGN.md §3 C07")
+claim("C08", WIRE,
+      "Decides registry agreement for steps and services, Write~Read layout/field/count agreement of every step, service and transaction-record codec on every joint path (every version switch; every optional section must be announced by a flag the reader branches on, and a presence condition must imply the omitted field is default), self-delimitation (no read-until-end on the shared stream), and that TxRecord.Read alters decoded fields only by the sanctioned error-level defaulting.",
+      "Trusts go/types; primitive layouts (C01) and the value codec (C02) are separate obligations.",
+      "DESIGN.md §3 C08")
+
+for pid in ["C01","C04","C05","C06","C09","C10","C11","C12","C13","C14","C15","C16","C17","C18","C19","C20"]:
     na(pid, "checker not built yet in this round (planned static clauses in DESIGN.md §3); not claimed until the rule is armed and tested")
